@@ -29,7 +29,7 @@ NOT_COVERED = ("Integrate equal to the time integral 'to integrator accuracy' fo
 ASSUMPTIONS = ["sample times strictly increasing (dt > 0), delay > 0"]
 
 
-def instances(tier, seed):
+def _instances(tier, seed):
     th = tier == "thorough"
     out = []
     for ty in ("real", "vec3"):
@@ -58,6 +58,15 @@ def instances(tier, seed):
     for dn, dv in (("short", 0.046875), ("medium", 0.15625), ("long", 0.75)):
         out.append(dict(name="delay/%s" % dn, args=["delay", "5"], base_points=1, paths=(2 if not th else 10), flips_per_path=2, seedcase={"delay": dv},
                         flip_linear_only=True))
+    return out
+
+
+def instances(tier, seed):
+    out = _instances(tier, seed)
+    for i in out:
+        # wall-clock bounds: a twin (satisfiable by design) that nlsat cannot settle quickly is simply not counted as refuted
+        i.setdefault("twin_timeout_ms", 15000)
+        i.setdefault("z3_timeout_ms", 120000)
     return out
 
 
